@@ -99,7 +99,16 @@ func genGate(r *Rng, prop string, k int) *RunSpec {
 			rq.Accept = strp(h)
 		}
 		// authentication outcome
-		rq.Auth = Pick(r, []string{"ok", "ok", "ok", "deny", "err"})
+		rq.Auth = Pick(r, []string{"ok", "ok", "ok", "ok", "deny", "err", "errtrue"})
+		// the header that does not count for this kind of request may say anything
+		if r.Intn(4) == 0 {
+			other := Pick(r, append(append([]string{}, hdrAP...), hdrNot...))
+			if isPost {
+				rq.Accept = strp(other)
+			} else {
+				rq.ContentType = strp(other)
+			}
+		}
 		// body
 		if isPost {
 			gateBody(r, st, kind, &rq, &ge)
@@ -348,7 +357,7 @@ func oracleGate(c *DriveCtx, res *Result) {
 				// (the trace monitor has already reported the precise call)
 				s.probe("gate-sideeffect-after-failed-auth")
 			}
-			if auth == "err" && t.Err == nil {
+			if (auth == "err" || auth == "errtrue") && t.Err == nil {
 				s.violate("C10", "auth-error-swallowed", site, "authentication returned an error but the handler reported success")
 			}
 			if auth == "deny" && (t.Err != nil || t.Rec.Wrote()) {
